@@ -180,3 +180,413 @@ contract(
     note="assumed for the FFT branch: irfft(|rfft(x, P)|^2)[t] is the linear autocorrelation for even P and t <= P - len(x); the "
          "obligations on the code are P even, P >= len + max_gamma and the slice bounds",
 )
+
+
+# ---------------------------------------------------------------------------------------------------
+# gamma_method, automatic windowing (standard branch, S > 0): statement slice = the `else:` block that computes tau, g_w
+# and runs the window search.  Live-in: the cumulative tau_int(W), its error, Gamma(0), N, S.
+
+# C03: the analysis writes only its own result attributes (never value / deltas / idl / names / r_values / shape)
+GM_WRITABLE = ["e_dvalue", "e_ddvalue", "e_tauint", "e_dtauint", "e_windowsize", "e_n_tauint", "e_n_dtauint", "e_rho", "e_drho",
+               "S", "tau_exp", "N_sigma", "_dvalue", "ddvalue"]
+
+
+def _find_block(pred):
+    def pick(mod, fnode):
+        for node in ast.walk(fnode):
+            if pred(node):
+                return node
+        from pyvc.sym import CheckerError
+        raise CheckerError("contract no longer binds: statement block not found in %s" % fnode.name)
+    return pick
+
+
+def _is_S_if(node):
+    """`if self.S[e_name] == 0.0:` ... else: <standard windowing>"""
+    return isinstance(node, ast.If) and isinstance(node.test, ast.Compare) and isinstance(node.test.left, ast.Subscript) and \
+        isinstance(node.test.left.value, ast.Attribute) and node.test.left.value.attr == "S" and isinstance(node.test.ops[0], ast.Eq)
+
+
+def _window_slice(mod, fnode):
+    return _find_block(_is_S_if)(mod, fnode).orelse
+
+
+def _gm_obj(name, ctx, shape=None):
+    def arr(n):
+        s = SSeq.fresh(name + "." + n, "ndarray", "real")
+        ctx.assume(s.length >= 0)
+        return s
+    o = SObj("Obs", {k: CDict({"A": arr(k)}) for k in ("e_n_tauint", "e_n_dtauint", "e_rho", "e_drho")})
+    for k in ("e_tauint", "e_dtauint", "e_dvalue", "e_ddvalue", "e_windowsize"):
+        o.attrs[k] = CDict()
+    o.attrs["S"] = CDict({"A": SReal(z3.Real(fresh("S")))})
+    o.attrs["tau_exp"] = CDict({"A": SReal(z3.Real(fresh("tau_exp")))})
+    o.attrs["N_sigma"] = CDict({"A": SReal(z3.Real(fresh("N_sigma")))})
+    return o
+
+
+def _gm_requires(a):
+    o = a.self
+    if not isinstance(o, SObj):
+        return {}       # native: the arrays are produced by the gamma_method call itself
+    return {"lengths": And(*[Len(D(A(o, k), "A")) == a.w_max for k in ("e_n_tauint", "e_n_dtauint", "e_rho", "e_drho")]),
+            "gamma-length": Len(D(a.e_gamma, "A")) == a.w_max}
+
+
+def _gamma_dict(name, ctx, shape=None):
+    s = SSeq.fresh(name, "ndarray", "real")
+    ctx.assume(s.length >= 0)
+    return CDict({"A": s})
+
+
+def _noop_closure(name, ctx, shape=None):
+    from pyvc.interp import Closure, Env
+    return Closure(ast.parse("lambda i: None").body[0].value, Env(None), "_compute_drho[stub]")
+
+
+def _uf(name, x):
+    from pyvc.sym import uf, treal
+    if not isinstance(x, Sym):
+        import numpy as np
+        with np.errstate(all="ignore"):
+            return float(getattr(np, name)(float(x)))
+    return wrap(uf(name)(treal(x)))
+
+
+def _sqrt(x):
+    return _uf("sqrt", x)
+
+
+def _src(a):
+    """the object whose e_rho / e_n_tauint / ... arrays the window search reads: the pre-state object in proofs, the
+    analysed object natively (the arrays are outputs of the same gamma_method call and are not changed by the search)"""
+    return a.self if isinstance(a.self, SObj) else a.post.self
+
+
+class _Pre:
+    def __init__(self, a):
+        self.self = _src(a)
+        self.e_N = a.e_N
+
+
+def g_w(a, n):
+    """Wolff's automatic windowing function at W = n >= 1"""
+    if not isinstance(a, (_Pre, _WinView)):
+        a = _Pre(a)
+    tint = At(D(A(a.self, "e_n_tauint"), "A"), n)
+    S = D(A(a.self, "S"), "A")
+    tau = S / _uf("log", (2 * tint + 1) / (2 * tint - 1))
+    return _uf("exp", -n / tau) - tau / _sqrt(n * a.e_N)
+
+
+def _win_post(a, r):
+    o = r.self
+    W = D(A(o, "e_windowsize"), "A")
+    if W is UNDEF:
+        return {"window-set": False}      # the search ended without choosing a window: must be unreachable
+    w = a.w_max
+    tint = D(A(_src(a), "e_n_tauint"), "A")
+    N = a.e_N
+    G0 = At(D(a.e_gamma, "A"), 0)
+    tau = D(A(o, "e_tauint"), "A")
+    dv = D(A(o, "e_dvalue"), "A")
+    return {
+        "window-in-range": And(W >= 1, W <= w - 1),
+        # the first lag at which the criterion turns negative, or the largest admissible lag
+        "first-negative": And(Or(g_w(a, W) < 0, W == w - 1), ForAll(1, W, lambda n: Not(g_w(a, n) < 0))),
+        "tauint-bias-corrected": eq(tau, At(tint, W) * (1 + (2 * W + 1) / N) / (1 + 1 / N)),
+        "dtauint": eq(D(A(o, "e_dtauint"), "A"), At(D(A(_src(a), "e_n_dtauint"), "A"), W)),
+        "dvalue": eq(dv, _sqrt(2 * tau * G0 * (1 + 1 / N) / N)),
+        "ddvalue": eq(D(A(o, "e_ddvalue"), "A"), dv * _sqrt((W + Fraction(1, 2)) / N)),
+    }
+
+
+def _gm_native(kw):
+    def call(args):
+        o = args["self"]
+        o.gamma_method(**dict(kw(args)))
+        from pyvc.driver import Namespace
+        return Namespace({"self": o})
+    return call
+
+
+def _gm_gen(mode):
+    def gen(rng, case):
+        import numpy as np
+        from pyvc.native import repo_module
+        pe = repo_module("pyerrors.obs")
+        n = rng.choice([12, 20, 33, 40, 64])
+        r = np.random.default_rng(rng.randint(0, 10 ** 6))
+        # AR(1) data with a random correlation so that windows of different sizes occur
+        phi = rng.choice([0.0, 0.5, 0.9, 0.97])
+        x = np.zeros(n)
+        for i in range(1, n):
+            x[i] = phi * x[i - 1] + r.normal()
+        o = pe.Obs([x + 1.0], ["A"])
+        w = n // 2
+        d = o.deltas["A"]
+        S = rng.choice([1.0, 2.0, 3.5])
+        return {"self": o, "e_name": "A", "e_N": n, "w_max": w, "e_gamma": {"A": np.array([float(np.sum(d * d)) / n])},
+                "_compute_drho": None, "_S": S, "_texp": rng.choice([1.0, 5.0, 20.0]), "_Nsigma": rng.choice([0.0, 1.0, 2.0])}
+    return gen
+
+
+def _win_inv(k, v):
+    n = k + 1
+    a = v
+    return {"no-earlier-window": ForAll(1, n, lambda m: And(Not(g_w(_WinView(v), m) < 0), m < v.w_max - 1)),
+            "nothing-written": len(A(v.self, "e_windowsize").d) == 0}
+
+
+class _WinView:
+    def __init__(self, v):
+        self.self = v.self
+        self.e_N = v.e_N
+
+
+contract(
+    REL + "::Obs.gamma_method", name=REL + "::Obs.gamma_method[automatic window]", props=["C02"],
+    slice=_window_slice, loops={"for:7": _win_inv},
+    params=dict(self=Custom(_gm_obj), e_name=Const("A"), e_N=Int(lo=5), w_max=Int(lo=2),
+                e_gamma=Custom(_gamma_dict), _compute_drho=Custom(_noop_closure)),
+    requires=_gm_requires,
+    writable_attrs={"self": GM_WRITABLE},
+    ensures=_win_post,
+    native_call=_gm_native(lambda args: {"S": args["_S"]}), gen=_gm_gen("S"), crosscheck=False, refute=False,
+    slice_note="the else-branch of `if self.S[e_name] == 0.0` inside the per-ensemble loop: tau, g_w and the window search; the "
+               "nested _compute_drho is replaced by a no-op (it only writes e_drho, see its own contract)",
+)
+
+
+# ---------------------------------------------------------------------------------------------------
+# gamma_method, tau_exp > 0 (critical slowing down, Schaefer et al.): the window is the first lag n at which
+# rho(n) - N_sigma * drho(n) < 0, or the cap w_max//2 - 2; the tail tau_exp * |rho(W+1)| is attached
+
+def _is_texp_if(node):
+    return isinstance(node, ast.If) and isinstance(node.test, ast.Compare) and isinstance(node.test.left, ast.Subscript) and \
+        isinstance(node.test.left.value, ast.Attribute) and node.test.left.value.attr == "tau_exp" and isinstance(node.test.ops[0], ast.Gt)
+
+
+def _texp_slice(mod, fnode):
+    return _find_block(_is_texp_if)(mod, fnode).body
+
+
+def _crit(a, n):
+    o = a.self if isinstance(a, _WinView) else _src(a)
+    return At(D(A(o, "e_rho"), "A"), n) - D(A(o, "N_sigma"), "A") * At(D(A(o, "e_drho"), "A"), n)
+
+
+def _absr(x):
+    return Ite(x >= 0, x, -x)
+
+
+def _texp_post(a, r):
+    o = r.self
+    W = D(A(o, "e_windowsize"), "A")
+    if W is UNDEF:
+        return {"window-set": False}
+    w = a.w_max
+    h = w // 2
+    N = a.e_N
+    texp = D(A(_src(a), "tau_exp"), "A")
+    tint = D(A(_src(a), "e_n_tauint"), "A")
+    dtint = D(A(_src(a), "e_n_dtauint"), "A")
+    rho, drho = D(A(_src(a), "e_rho"), "A"), D(A(_src(a), "e_drho"), "A")
+    G0 = At(D(a.e_gamma, "A"), 0)
+    tau = D(A(o, "e_tauint"), "A")
+    dv = D(A(o, "e_dvalue"), "A")
+    return {
+        "window-in-range": And(W >= 1, W < h),
+        "first-crossing-or-cap": And(Or(_crit(a, W) < 0, W >= h - 2), ForAll(1, W, lambda n: And(Not(_crit(a, n) < 0), n < h - 2))),
+        "tauint-with-tail": eq(tau, At(tint, W) * (1 + (2 * W + 1) / N) / (1 + 1 / N) + texp * _absr(At(rho, W + 1))),
+        "dtauint": eq(D(A(o, "e_dtauint"), "A"), _sqrt(At(dtint, W) ** 2 + texp ** 2 * At(drho, W + 1) ** 2)),
+        "dvalue": eq(dv, _sqrt(2 * tau * G0 * (1 + 1 / N) / N)),
+        "ddvalue": eq(D(A(o, "e_ddvalue"), "A"), dv * _sqrt((W + Fraction(1, 2)) / N)),
+    }
+
+
+def _texp_inv(k, v):
+    n = k + 1
+    h = v.w_max // 2
+    return {"no-earlier-window": ForAll(1, n, lambda m: And(Not(_crit(_WinView(v), m) < 0), m < h - 2)),
+            "nothing-written": len(A(v.self, "e_windowsize").d) == 0}
+
+
+contract(
+    REL + "::Obs.gamma_method", name=REL + "::Obs.gamma_method[tau_exp window]", props=["C02"],
+    slice=_texp_slice, loops={"for:6": _texp_inv},
+    params=dict(self=Custom(_gm_obj), e_name=Const("A"), e_N=Int(lo=5), w_max=Int(lo=2),
+                e_gamma=Custom(_gamma_dict), _compute_drho=Custom(_noop_closure)),
+    requires=_gm_requires,
+    writable_attrs={"self": GM_WRITABLE},
+    raises=[("ValueError", lambda a: a.w_max // 2 <= 1)],
+    ensures=_texp_post,
+    native_call=_gm_native(lambda args: {"tau_exp": args["_texp"], "N_sigma": args["_Nsigma"]}), gen=_gm_gen("texp"),
+    crosscheck=False, refute=False,
+    slice_note="the body of `if self.tau_exp[e_name] > 0` inside the per-ensemble loop; _compute_drho replaced by a no-op "
+               "(e_drho is an arbitrary given array here)",
+)
+
+
+# ---------------------------------------------------------------------------------------------------
+# gamma_method: length of each replica in units of the common spacing, and w_max (C03: the error analysis must not
+# change when all configuration numbers are multiplied by a common integer and shifted)
+
+def _rl_slice(mod, fnode):
+    loops = [n for n in ast.walk(fnode) if isinstance(n, ast.For)]
+    loops.sort(key=lambda n: (n.lineno, n.col_offset))
+    outer = loops[2]          # for e, e_name in enumerate(self.mc_names)
+    out = []
+    for st in outer.body:
+        out.append(st)
+        if isinstance(st, ast.Assign) and isinstance(st.targets[0], ast.Name) and st.targets[0].id == "w_max":
+            return out
+    from pyvc.sym import CheckerError
+    raise CheckerError("contract no longer binds: `w_max = ...` not found in the per-ensemble loop of gamma_method")
+
+
+def units(idl, gap):
+    """extent of a chain in units of the spacing `gap`, in a form that is invariant under i -> a*i + b, gap -> a*gap"""
+    if is_range(idl):
+        return Len(idl) * idl.step // gap
+    return (At(idl, Len(idl) - 1) - At(idl, 0)) // gap + 1
+
+
+def _rl_post(a, r):
+    o = a.self
+    names = names_of(o)
+    us = [units(chain(o, cn, "idl"), r.gapsize) for cn in names]
+    mx = us[0]
+    for u in us[1:]:
+        mx = Ite(u > mx, u, mx)
+    if not isinstance(o, SObj):
+        return {"w_max": r.w_max == mx // 2}       # natively only w_max is observable (length of e_rho)
+    out = {"count": Len(r.r_length) == len(names)}
+    for j, cn in enumerate(names):
+        out["units.%s" % cn] = At(r.r_length, j) == us[j]
+    out["w_max"] = r.w_max == mx // 2
+    return out
+
+
+def _rl_native(args):
+    from pyvc.driver import Namespace
+    from pyvc.native import repo_module
+    pe = repo_module("pyerrors.obs")
+    o = args["self"]
+    o.gamma_method()
+    return Namespace({"w_max": len(o.e_rho["A"]), "gapsize": int(pe._determine_gap(o, o.e_content, "A"))})
+
+
+def _rl_gen(rng, case):
+    lay = GAP_LAYOUTS[case["self"]]
+    g = rng.choice([1, 2, 2, 3])
+    from contracts.obsmodel import native_obs_from
+    chains = {}
+    for cn, kind in lay.chains:
+        idl = G.lattice_idl(rng, kind, g, rng.randint(6, 12))
+        if kind == "list" and len(set(idl[j + 1] - idl[j] for j in range(len(idl) - 1))) == 1:
+            idl[-1] += g
+        chains[cn] = (idl, list(G.reals(rng, len(idl))))
+    o = native_obs_from({"chains": chains})
+    return {"self": o, "e_content": o.e_content, "e_name": "A"}
+
+
+def _lemma_units_invariant():
+    """units() is invariant under the affine relabelling (both kinds); over interpreted integer arithmetic"""
+    a, b, D, g, n, s = z3.Ints("a b D g n s")
+    lst = z3.Implies(z3.And(a >= 1, g >= 1, D >= 0), (a * D) / (a * g) + 1 == D / g + 1)
+    rng = z3.Implies(z3.And(a >= 1, g >= 1, n >= 1, s >= 1), (n * (a * s)) / (a * g) == (n * s) / g)
+    return z3.And(lst, rng)
+
+
+contract(
+    REL + "::Obs.gamma_method", name=REL + "::Obs.gamma_method[replica lengths]", props=["C03", "C02"],
+    slice=_rl_slice,
+    params=dict(self=Custom(lambda n, c, s: None, variants=lambda: [(k, _ObsOn(v, 5)) for k, v in GAP_LAYOUTS.items()]),
+                e_content=Custom(lambda n, c, s: None, variants=lambda: [
+                    (k, Custom(lambda n, c, s, v=v: CDict({"A": CList(list(v.names), "list")}), native=lambda val, ev, v=v: {"A": list(v.names)}))
+                    for k, v in GAP_LAYOUTS.items()]),
+                e_name=Const("A")),
+    cases_filter=lambda case: case["self"] == case["e_content"],
+    may_raise=("ValueError",),
+    ensures=_rl_post,
+    lemmas={"units-invariant-under-relabelling": _lemma_units_invariant},
+    native_call=_rl_native, gen=_rl_gen, crosscheck=False, refute=False,
+    slice_note="first statements of the per-ensemble loop (gapsize, r_length, e_N, w_max)",
+    note="the postcondition fixes r_length to the relabelling-invariant extent; the lemma shows that extent invariant",
+)
+
+
+
+# ---------------------------------------------------------------------------------------------------
+# gamma_method::_parse_kwarg(kwarg_name): explicit argument > per-ensemble dictionary > global default (C03)
+
+def _pk_obj(name, ctx, shape=None):
+    return SObj("Obs", {"names": CList(["A|r1", "B|r1"], "list"), "S": CDict(), "tau_exp": CDict(), "N_sigma": CDict(), "_covobs": CDict()})
+
+
+class _KwSpec(Spec):
+    def variants(self):
+        return [("absent", Custom(lambda n, c, s: CDict())),
+                ("float", Custom(lambda n, c, s: CDict({"S": SReal(z3.Real(fresh("S.arg")))}))),
+                ("int", Custom(lambda n, c, s: CDict({"S": SInt(z3.Int(fresh("S.arg")))}))),
+                ("str", Custom(lambda n, c, s: CDict({"S": "2.0"})))]
+
+
+def _pk_post(a, r):
+    got = A(a.post.self, "S")
+    kw = a.kwargs.d
+    out = {}
+    for e in ("A", "B"):
+        if "S" in kw:
+            out["explicit.%s" % e] = eq(D(got, e), kw["S"])
+        elif e in _PK_DICT.d:
+            out["dictionary.%s" % e] = eq(D(got, e), _PK_DICT.d[e])
+        else:
+            out["global.%s" % e] = eq(D(got, e), _PK_GLOBAL)
+    return out
+
+
+_PK_DICT = CDict({"A": SReal(z3.Real("S_dict.A"))})
+_PK_GLOBAL = SReal(z3.Real("S_global"))
+
+
+contract(
+    REL + "::Obs.gamma_method::_parse_kwarg", props=["C03"],
+    params=dict(kwarg_name=Const("S"), self=Custom(_pk_obj), kwargs=_KwSpec()),
+    class_attrs={"Obs.S_dict": _PK_DICT, "Obs.S_global": _PK_GLOBAL},
+    inline=[REL + "::Obs.e_names"],
+    writable_attrs={"self": ["S"]},
+    raises=[("ValueError", lambda a: "S" in a.kwargs.d and not isinstance(a.kwargs.d["S"], str) and a.kwargs.d["S"] < 0),
+            ("TypeError", lambda a: "S" in a.kwargs.d and isinstance(a.kwargs.d["S"], str))],
+    ensures=_pk_post,
+    native_ok=False, crosscheck=False, refute=False,
+    slice_note="nested function of gamma_method; its free variables self and kwargs are parameters; the class-level dictionary and "
+               "global default are symbolic (an entry for ensemble A, none for ensemble B)",
+    note="the same code serves S, tau_exp and N_sigma (the name is a parameter); verified for S",
+)
+
+
+# ---------------------------------------------------------------------------------------------------
+# gamma_method, S == 0: exactly the naive standard error of the mean
+
+def _s0_slice(mod, fnode):
+    return _find_block(_is_S_if)(mod, fnode).body
+
+
+contract(
+    REL + "::Obs.gamma_method", name=REL + "::Obs.gamma_method[S=0]", props=["C02"],
+    slice=_s0_slice,
+    params=dict(self=Custom(_gm_obj), e_name=Const("A"), e_N=Int(lo=5), w_max=Int(lo=2), e_gamma=Custom(_gamma_dict)),
+    requires=_gm_requires,
+    writable_attrs={"self": GM_WRITABLE},
+    ensures=lambda a, r: {
+        "tauint": eq(D(A(r.self, "e_tauint"), "A"), Fraction(1, 2)),
+        "dtauint": eq(D(A(r.self, "e_dtauint"), "A"), 0),
+        "naive-standard-error": eq(D(A(r.self, "e_dvalue"), "A"), _sqrt(At(D(a.e_gamma, "A"), 0) / (a.e_N - 1))),
+        "ddvalue": eq(D(A(r.self, "e_ddvalue"), "A"), D(A(r.self, "e_dvalue"), "A") * _sqrt(Fraction(1, 2) / a.e_N)),
+        "window": D(A(r.self, "e_windowsize"), "A") == 0,
+    },
+    native_ok=False, crosscheck=False, refute=False,
+    slice_note="body of `if self.S[e_name] == 0.0`",
+)
